@@ -184,6 +184,15 @@ def _roundtrip(case, out, home):
                 return
             finally:
                 os.fsync = real_fsync
+            # after the attempt that failed the profile still loads - as the previous configuration or as the new one
+            try:
+                mid = ConfigManager().load(profile)
+            except Exception as e:
+                out.fail("load", "load_raises_after_a_failed_save:%s:%s" % (key, type(e).__name__), {"error": _exc(e)})
+                return
+            if mid is None or (config_diff(cfg, mid) and config_diff(cfg2, mid)):
+                out.fail("roundtrip", "configuration_%s_after_a_failed_save:%s" % ("lost" if mid is None else "neither_previous_nor_new", key), {})
+                return
         try:
             cm2.save(profile, cfg2)
             back2 = ConfigManager().load(profile)
@@ -491,3 +500,5 @@ def plan(tier):
         "shrink": "hypothesis",
         "budget_s": 150 if quick else 1500,
     }
+
+RULE += (' Also: the second save made by another manager object, the first configuration saved again afterwards, a first attempt failing with an I/O error at fsync (the profile must load as the previous or the new configuration in between) and retried.')
